@@ -14,6 +14,7 @@ from typing import Any, Dict, List, Optional
 from pjrpc.common.exceptions import JsonRpcError
 
 from .. import clientscn as CS
+from .. import gen
 from ..ref import jsonrpc as R
 from ..world import World
 from . import c09
@@ -192,9 +193,134 @@ def _family(client_async: bool):
     return fam
 
 
-FAMILIES = {'trace.sync': _family(False), 'trace.async': _family(True)}
+def _judge_overlapping(w: World, recs: List[Dict[str, Any]], calls: List[Dict[str, Any]], nt: int, ctx: Dict[str, Any]) -> None:
+    """Overlapping calls on one client: events are paired per request object, not globally."""
+    trace = [r for r in recs if r['kind'].startswith('trace.')]
+    for c in calls:
+        for i in range(nt):
+            evs = [r for r in trace if r['tracer'] == i and r['req'] == c['req_ord']]
+            kinds = [r['kind'] for r in evs]
+            if kinds[:1] != ['trace.begin'] or len(kinds) != 2 or kinds[1] == 'trace.begin':
+                w.violate('C19.pairing', f'tracer {i}, call {c["k"]}: events {kinds} for its request instead of one begin '
+                          f'followed by exactly one completion', **ctx)
+                return
+            begin, comp = evs
+            if begin['ctx'] != comp['ctx'] or (c['ctx_ord'] is not None and begin['ctx'] != c['ctx_ord']):
+                w.violate('C19.context', f'tracer {i}, call {c["k"]}: begin and completion carry different trace contexts '
+                          f'({begin["ctx"]} / {comp["ctx"]}; caller supplied {c["ctx_ord"]})', **ctx)
+                return
+            if c['outcome'][0] == 'value':
+                doc = comp.get('resp_doc')
+                if comp['kind'] != 'trace.end' or not isinstance(doc, dict) or doc.get('id') != c['id']:
+                    w.violate('C19.completion', f'tracer {i}, call {c["k"]} returned but its completion event is '
+                              f'{comp["kind"]} with {doc!r}', **ctx)
+                    return
+            else:
+                if comp['kind'] != 'trace.error' or comp['oid'] != w.ordinal(c['outcome'][1]):
+                    w.violate('C19.completion', f'tracer {i}, call {c["k"]} raised {type(c["outcome"][1]).__name__} but '
+                              f'its completion event is {comp["kind"]} {comp.get("exc")}', **ctx)
+                    return
+    stray = [r for r in trace if r['req'] not in {c['req_ord'] for c in calls}]
+    if stray:
+        w.violate('C19.pairing', f'{len(stray)} tracer events carry a request object no call was made with', **ctx)
+
+
+def _draw_calls(w: World, n: int) -> List[Dict[str, Any]]:
+    ch = w.ch
+    calls = []
+    for k in range(n):
+        method = ch.choice(['slow', 'echo', 'fail_exc', 'nosuch'], 'call.method')
+        params = [f'c{k}'] if method != 'fail_exc' else [f'c{k}', 'value']
+        calls.append({'k': k, 'method': method, 'params': params, 'id': ch.choice([1, 2, 'a', 7, 0, 'b', 9][k::3] or [k], 'call.id'),
+                      'own_ctx': bool(ch.draw(2, 'call.ctx')), 'delay': ch.choice(gen.PAUSES, 'call.delay')})
+        w.plan[('method', f'c{k}')] = [ch.choice(gen.PAUSES, 'pause.d') for _ in range(ch.draw(3, 'pause.n'))]
+    return calls
+
+
+def fam_concurrent_async(w: World) -> None:
+    """Two or three calls in flight at the same time on ONE asynchronous client."""
+    import asyncio
+    import pjrpc
+    from types import SimpleNamespace
+    from ..stack import Stack
+    ch = w.ch
+    nt = 1 + ch.draw(3, 'tracers')
+    n = 2 + ch.draw(2, 'calls')
+    calls = _draw_calls(w, n)
+    script = [{'pre': ch.choice(gen.PAUSES, 'net.pre'), 'post': ch.choice(gen.PAUSES, 'net.post')} for _ in range(n)]
+    tracers = [CS.RecTracer(w, i, 'client') for i in range(nt)]
+    st = Stack(w, True, bool(ch.draw(2, 'server_async')), None, client_kwargs={'tracers': tracers}, script=script)
+    w.scenario = {'calls': calls, 'tracers': nt, 'script': script, 'variant': 'async tasks'}
+    w.nontrivial = True
+
+    async def one(c: Dict[str, Any]) -> None:
+        await asyncio.sleep(c['delay'])
+        req = pjrpc.Request(c['method'], c['params'], c['id'])
+        tctx = SimpleNamespace(mark=f'ctx{c["k"]}') if c['own_ctx'] else None
+        c['req_ord'] = w.ordinal(req)
+        c['ctx_ord'] = w.ordinal(tctx) if tctx is not None else None
+        try:
+            c['outcome'] = ('value', await st.client.send(req, _trace_ctx=tctx))
+        except Exception as e:  # noqa: BLE001
+            c['outcome'] = ('raise', e)
+
+    async def main() -> None:
+        await asyncio.gather(*(one(c) for c in calls))
+
+    assert st.loop is not None
+    st.loop.run_until_complete(main())
+    begins = [r['seq'] for r in w.history if r['kind'] == 'trace.begin' and r['tracer'] == 0]
+    comps = [r['seq'] for r in w.history if r['kind'] in ('trace.end', 'trace.error') and r['tracer'] == 0]
+    if len(begins) >= 2 and comps and begins[1] < comps[0]:
+        w.probe('attempts_overlapped')
+    w.sig_parts = [(r['kind'], r['req']) for r in w.history if r['kind'].startswith('trace.') and r['tracer'] == 0]
+    _judge_overlapping(w, list(w.history), calls, nt, {'variant': 'concurrent.async', 'tracers': nt})
+
+
+def fam_concurrent_threads(w: World) -> None:
+    """Two or three caller threads share ONE synchronous client; the baton scheduler interleaves them."""
+    import os
+    import pjrpc
+    from types import SimpleNamespace
+    from .. import net as NET
+    from .. import service as SVC
+    from ..stack import Stack
+    from ..threads import BatonScheduler
+    ch = w.ch
+    nt = 1 + ch.draw(3, 'tracers')
+    n = 2 + ch.draw(2, 'calls')
+    calls = _draw_calls(w, n)
+    tracers = [CS.RecTracer(w, i, 'client') for i in range(nt)]
+    st = Stack(w, False, False, None, client_kwargs={'tracers': tracers})
+    w.scenario = {'calls': calls, 'tracers': nt, 'variant': 'threads'}
+    w.nontrivial = True
+
+    def worker(c: Dict[str, Any]):
+        def run() -> None:
+            req = pjrpc.Request(c['method'], c['params'], c['id'])
+            tctx = SimpleNamespace(mark=f'ctx{c["k"]}') if c['own_ctx'] else None
+            c['req_ord'] = w.ordinal(req)
+            c['ctx_ord'] = w.ordinal(tctx) if tctx is not None else None
+            try:
+                c['outcome'] = ('value', st.client.send(req, _trace_ctx=tctx))
+            except Exception as e:  # noqa: BLE001
+                c['outcome'] = ('raise', e)
+        return run
+
+    sched = BatonScheduler(w, switch_den=ch.choice([3, 6, 12], 'threads.den'),
+                           extra_files=[os.path.abspath(NET.__file__), os.path.abspath(SVC.__file__),
+                                        os.path.abspath(CS.__file__)])
+    sched.run([worker(c) for c in calls])
+    if any('outcome' not in c for c in calls):
+        from ..world import HarnessError
+        raise HarnessError('a caller thread did not finish')
+    _judge_overlapping(w, list(w.history), calls, nt, {'variant': 'concurrent.threads', 'tracers': nt})
+
+
+FAMILIES = {'trace.sync': _family(False), 'trace.async': _family(True),
+            'trace.concurrent.async': fam_concurrent_async, 'trace.concurrent.threads': fam_concurrent_threads}
 PLAN = {
-    'quick': {'trace.sync': 48000, 'trace.async': 64000},
-    'thorough': {'trace.sync': 40000, 'trace.async': 60000},
+    'quick': {'trace.sync': 48000, 'trace.async': 64000, 'trace.concurrent.async': 20000, 'trace.concurrent.threads': 3000},
+    'thorough': {'trace.sync': 40000, 'trace.async': 60000, 'trace.concurrent.async': 60000, 'trace.concurrent.threads': 9000},
 }
 THOROUGH_BUDGET_S = 600
